@@ -11,6 +11,7 @@ from geneticengine.representations.api import (
     RepresentationWithMutation,
     Representation,
 )
+from geneticengine.representations.grammatical_evolution.dynamic_structured_ge import gene_key
 from geneticengine.representations.tree.initializations import SynthesisDecider
 from geneticengine.representations.tree.treebased import random_node
 from geneticengine.solutions.tree import TreeNode
@@ -84,7 +85,9 @@ class StructuredGrammaticalEvolutionRepresentation(
             arguments = get_arguments(node)
             for _, arg in arguments:
                 if is_generic(arg):
-                    nodes.append(str(arg))
+                    # without its refinements: with string annotations the refined type is a new object on every call,
+                    # and two genotypes of one grammar would not have the same genes
+                    nodes.append(str(gene_key(arg)))
                 base_type = str(strip_annotations(arg))
                 if base_type not in nodes:
                     nodes.append(base_type)
